@@ -246,6 +246,11 @@ pub fn step(st: &State, prec: &Prec, ps: &[P]) -> Exp {
                         if v.is_zero() {
                             return Exp::DontCare("zero-amount-with-total-price");
                         }
+                        if t.signum() < 0 && v.signum() > 0 {
+                            // `1 X @@ -2 Y`: "valued at its cost" could mean -2 Y (as written) or 2 Y (sign of the
+                            // amount); with a negative amount both readings give -2 Y and the case is judged
+                            return Exp::DontCare("negative-total-with-positive-amount");
+                        }
                         (if v.signum() < 0 { t.abs().neg() } else { t.abs() }, tc)
                     }
                 };
